@@ -96,7 +96,10 @@ impl Engine for ListEng {
         match cmd["c"].as_str().unwrap() {
             "ins" => s.insert_index(i, v, actor),
             "app" => s.append(v, actor),
-            "del" => s.delete_index(i, actor).expect("delete_index within bounds returns an op"),
+            "del" => match s.delete_index(i, actor) {
+                Some(op) => op,
+                None => crate::core::lib_fault("delete_index returned None for an index the history says exists"),
+            },
             c => panic!("unknown list command {}", c),
         }
     }
